@@ -237,6 +237,9 @@ def invert(W, copy=True):
     '''
     if copy:
         W = W.copy()
+        if not np.issubdtype(W.dtype, np.inexact):
+            # an integer array cannot hold 1/w
+            W = W.astype(float)
     E = np.where(W)
     W[E] = 1. / W[E]
     return W
